@@ -112,6 +112,56 @@ def main():
             out['results'].append({'mod': c['mod'], 'fn': c['fn'], 'args': c['args'], 'r': r, 'step': i})
             if c.get('mutate'):
                 mutate(val)
+    elif job['kind'] == 'gate':
+        # import window: t1 makes the call first; its import of job['gate'] (a submodule such as stdnum.gb.vat) is held in
+        # importlib._bootstrap._find_and_load_unlocked() after the module body has run (no longer marked as initialising) and
+        # before the attribute on the parent package is set; t2 makes the same call in that window; then t1 continues and
+        # both repeat the call.  Independent of the hooks.
+        reached, opened = threading.Event(), threading.Event()
+        res = {}
+
+        def glocal(frame, event, arg):
+            if event == 'line' and not reached.is_set():
+                loc = frame.f_locals
+                m = loc.get('module')
+                if loc.get('name') == job['gate'] and loc.get('parent') and getattr(m, '__name__', '') == job['gate'] \
+                        and not getattr(getattr(m, '__spec__', None), '_initializing', False):
+                    reached.set()
+                    opened.wait(10)
+            return glocal
+
+        def gtracer(frame, event, arg):
+            if event == 'call' and frame.f_code.co_name == '_find_and_load_unlocked':
+                return glocal
+            return None
+
+        def gwork(name):
+            if name == 't1':
+                sys.settrace(gtracer)
+            try:
+                for i, c in enumerate(job['calls'], 1):
+                    val, r = do_call(c)
+                    res[(name, i)] = (c, r)
+            finally:
+                sys.settrace(None)
+                if vh:
+                    vh.thread_done()
+        if vh:
+            vh.reset(None)
+        t1 = threading.Thread(target=gwork, name='t1', args=('t1',))
+        t2 = threading.Thread(target=gwork, name='t2', args=('t2',))
+        t1.start()
+        out['gate_reached'] = reached.wait(10)
+        t2.start()
+        t2.join(10)
+        opened.set()
+        t1.join()
+        t2.join()
+        for i, c in enumerate(job['calls'], 1):      # and once more, afterwards
+            val, r = do_call(c)
+            res[('t1', len(job['calls']) + i)] = (c, r)
+        for (name, i), (c, r) in sorted(res.items()):
+            out['results'].append({'mod': c['mod'], 'fn': c['fn'], 'args': c['args'], 'r': r, 'step': i, 'th': name})
     else:
         n = job['n']
         names = ['t%d' % (i + 1) for i in range(n)]
